@@ -36,7 +36,7 @@ func runC10(c *Ctx) {
 	alk := p.Func("group", "", "autoLockKick")
 	add := p.Func("group", "", "add")
 	c.Rule("R10.1", "E3", "the insertion g.clients[id] = c is unreachable while a refusal condition holds", 8)
-	c.Rule("R10.2", "E5", "admission tests, insertion and announcements share one critical section of Group.mu", 3)
+	c.Rule("R10.2", "E5", "admission tests, member snapshot, insertion and announcements share one critical section of Group.mu", 4)
 	c.Rule("R10.3", "E5/E3", "autoLockKick always runs under Group.mu; in DelClient in the critical section of the removal, on every path", 3)
 	c.Rule("R10.4", "E3", "announcements only after the insertion; no refusal after it", 4)
 	c.Rule("R10.5", "E2", "autoLockKick locks exactly under autolock, unlocked, no operator present; add() calls it on every successful path", 4)
@@ -287,6 +287,31 @@ func runC10(c *Ctx) {
 				}
 			}
 		}
+		// the member snapshot the admission tests and the announcements range over is
+		// taken inside the critical section of the insertion
+		nsnap, badSnap := 0, 0
+		for _, b := range sfn.Blocks {
+			for _, ins := range b.Instrs {
+				call, ok := ins.(*ssa.Call)
+				if !ok || call.Referrers() == nil || len(*call.Referrers()) == 0 {
+					continue
+				}
+				sl, ok := call.Type().Underlying().(*types.Slice)
+				if !ok {
+					continue
+				}
+				if nt, ok := sl.Elem().(*types.Named); !ok || nt.Obj().Name() != "Client" || nt.Obj().Pkg() == nil || nt.Obj().Pkg().Name() != "group" {
+					continue
+				}
+				nsnap++
+				f := call.Call.StaticCallee()
+				if f == nil || f.Name() != "getClientsUnlocked" || !la.instIn[ins][1].has(gmu.ID) {
+					badSnap++
+				}
+			}
+		}
+		c.Check(badSnap == 0 && nsnap > 0, "R10.2", "AddClient: member snapshot taken under the lock", ac.Pos(),
+			fmt.Sprintf("%d member list(s) read with getClientsUnlocked while Group.mu is held", nsnap), fmt.Sprintf("%d member list(s) used by AddClient are not read inside the critical section of the insertion: the operator-present test and the announcements work on a stale membership", badSnap))
 		c.Check(bad == 0 && n > 0, "R10.2", "AddClient: admission reads under the lock", ac.Pos(),
 			fmt.Sprintf("%d reads of locked/clients/description hold Group.mu", n), fmt.Sprintf("%d admission reads happen without Group.mu", bad))
 	}
